@@ -69,7 +69,7 @@ TypedV == JsV \cup {V("field", xp, ty, FALSE, FALSE, "") : xp \in {0, 1}, ty \in
               \cup {V("const", 0, ty, nt, FALSE, lit) : ty \in Types, nt \in BOOLEAN, lit \in {"1", " y ", ""}}
 MkIE(m, p, v, ie) == [m |-> m, par |-> p, kind |-> [i \in 1..m |-> v[i].kind], xp |-> [i \in 1..m |-> v[i].xp], ty |-> [i \in 1..m |-> v[i].ty],
                       notrim |-> [i \in 1..m |-> v[i].notrim], keep |-> [i \in 1..m |-> v[i].keep], lit |-> [i \in 1..m |-> v[i].lit], ie |-> ie]
-TwinV == {V("jsconst", 0, "none", FALSE, FALSE, lit) : lit \in {"throw:x", "str:x"}}
+TwinV == {V("jsconst", 0, "none", FALSE, FALSE, lit) : lit \in {"throw:x", "str:x", "probe:x"}}
 Trees ==
   CASE Family = "ietwin" ->
          { MkIE(3, <<0, 1, 1>>, <<V("object", 0, "none", FALSE, FALSE, ""), x, y>>, <<FALSE, a, b>>) : x \in TwinV, y \in TwinV, a \in BOOLEAN, b \in BOOLEAN }
